@@ -10,7 +10,7 @@ for s in $SEEDS; do
     lab=$(grep -m3 "^  assertion" /tmp/out/mut/$s.$p.log | sed 's/^  assertion \([^ ]*\) fails in \([^;]*\);.*/\1 (\2)/' | tr '\n' ';')
     echo "$p quick exit=$rc $lab" >> $d/detection.txt
   done
-  git -C /repo worktree remove --force $w
+  git -C /repo worktree remove --force $w || { rm -rf $w; git -C /repo worktree prune; }
   echo "== $s"; cat $d/detection.txt
 done
 echo WAVEDONE
